@@ -22,6 +22,7 @@ type CVal struct {
 	Untyped bool
 	Lit     *big.Int
 	SetLit  []*CExpr
+	ObjVal  bool // V is a pointer standing for the struct/array VALUE it points to
 }
 
 type CEnv struct {
@@ -200,6 +201,10 @@ func exprString(x *CExpr) string {
 	return x.Op
 }
 
+func (e *CEnv) objVal(p PtrV) CVal {
+	return CVal{V: p, T: types.NewPointer(p.Elem), ObjVal: true}
+}
+
 func (e *CEnv) goVal(v Val, t types.Type) CVal {
 	cv := CVal{V: v, T: t}
 	if _, s, ok := intWidth(t); ok {
@@ -254,7 +259,7 @@ func (e *CEnv) Eval(x *CExpr) CVal {
 		var bound []*Term
 		for _, v := range x.Vars {
 			s, signed := e.sortOf(v.Type)
-			bv := c.BoundVar(v.Name, s)
+			bv := c.BoundVarNamed(fmt.Sprintf("%s@%d", v.Name, e.fx.eng.exprID(x)), s)
 			bound = append(bound, bv)
 			n.bound[v.Name] = CVal{V: bv, G: v.Type, Signed: signed}
 		}
@@ -310,7 +315,7 @@ func (e *CEnv) ident(name string) CVal {
 				t := a.Type().(*types.Pointer).Elem()
 				pv := p.(PtrV)
 				if pv.Kind == PObj {
-					return e.goVal(pv, types.NewPointer(t))
+					return e.objVal(pv)
 				}
 				return e.goVal(e.fx.load(e.st, pv), t)
 			}
@@ -373,7 +378,7 @@ func (e *CEnv) pkgObject(pkg *types.Package, name string) (CVal, bool) {
 			if g, ok := sp.Members[name].(*ssa.Global); ok {
 				t := g.Type().(*types.Pointer).Elem()
 				if isObjT(t) {
-					return e.goVal(PtrV{Kind: PObj, Ref: e.fx.c.Const(globalKey(g), RefSort), Elem: t}, types.NewPointer(t)), true
+					return e.objVal(PtrV{Kind: PObj, Ref: e.fx.c.Const(globalKey(g), RefSort), Elem: t}), true
 				}
 				return e.goVal(e.fx.loadGlobal(e.st, g), t), true
 			}
@@ -472,11 +477,15 @@ func (e *CEnv) unary(x *CExpr) CVal {
 		if !ok {
 			e.fail("dereference of a non-pointer: %s", exprString(x.Args[0]))
 		}
+		if p.Kind == PObj && !v.ObjVal {
+			return e.objVal(p)
+		}
 		return e.goVal(e.fx.load(e.st, p), p.Elem)
 	case "&":
 		// &x.f : address of an object-typed field
 		v := e.Eval(x.Args[0])
 		if p, ok := v.V.(PtrV); ok && p.Kind == PObj {
+			v.ObjVal = false
 			return v
 		}
 		e.fail("unsupported address-of")
@@ -555,6 +564,10 @@ func (e *CEnv) binary(x *CExpr) CVal {
 	switch x.Name {
 	case "==", "!=":
 		var eq *Term
+		// struct / array values are compared by content
+		if a.ObjVal || b.ObjVal {
+			a, b = e.loadObjVal(a), e.loadObjVal(b)
+		}
 		ta, aok := a.V.(*Term)
 		tb, bok := b.V.(*Term)
 		if aok && bok && (a.T == nil || !isArrayT(a.T)) {
@@ -665,7 +678,7 @@ func (e *CEnv) selectField(base CVal, name string, x *CExpr) CVal {
 			if st.Field(i).Name() == name {
 				ft := st.Field(i).Type()
 				if isObjT(ft) {
-					return e.goVal(PtrV{Kind: PObj, Ref: e.fx.subRef(bv.Elem, i, bv.Ref), Elem: ft}, types.NewPointer(ft))
+					return e.objVal(PtrV{Kind: PObj, Ref: e.fx.subRef(bv.Elem, i, bv.Ref), Elem: ft})
 				}
 				return e.goVal(e.fx.loadField(e.st, bv.Elem, i, bv.Ref), ft)
 			}
@@ -676,7 +689,7 @@ func (e *CEnv) selectField(base CVal, name string, x *CExpr) CVal {
 				ft := st.Field(i).Type()
 				var inner CVal
 				if isObjT(ft) {
-					inner = e.goVal(PtrV{Kind: PObj, Ref: e.fx.subRef(bv.Elem, i, bv.Ref), Elem: ft}, types.NewPointer(ft))
+					inner = e.objVal(PtrV{Kind: PObj, Ref: e.fx.subRef(bv.Elem, i, bv.Ref), Elem: ft})
 				} else {
 					inner = e.goVal(e.fx.loadField(e.st, bv.Elem, i, bv.Ref), ft)
 				}
@@ -777,6 +790,21 @@ func (e *CEnv) index(x *CExpr) CVal {
 	base := e.Eval(x.Args[0])
 	switch bv := base.V.(type) {
 	case *Term:
+		if mt, ok := mapTypeOf(base.T); ok && bv.Sort == RefSort {
+			if !e.fx.mapModelled(mt) {
+				e.fail("map type %s is not modelled", mt)
+			}
+			kv := e.Eval(x.Args[1])
+			kv = e.typedKey(kv, mt.Key())
+			k := e.fx.mapKeyTerm(e.st, mt.Key(), kv.V)
+			ok, v := e.fx.mapRead(e.st, mt, bv, k)
+			if _, nn := e.fx.eng.db.NonNilMaps[mapTypeKey(mt)]; nn {
+				if pv, isP := v.(PtrV); isP && pv.Ref != nil {
+					e.fx.assumeGlobal(c.Implies(ok, c.Not(c.Eq(pv.Ref, e.fx.nilRef()))))
+				}
+			}
+			return e.goVal(e.fx.mergeVal(ok, v, e.fx.zeroVal(mt.Elem())), mt.Elem())
+		}
 		if !bv.Sort.IsArr() {
 			e.fail("indexing a non-array in %s", exprString(x))
 		}
@@ -818,7 +846,7 @@ func (e *CEnv) index(x *CExpr) CVal {
 		it := e.indexTerm(e.Eval(x.Args[1]))
 		et := under(base.T).(*types.Slice).Elem()
 		if isObjT(et) {
-			return e.goVal(PtrV{Kind: PObj, Ref: e.fx.elemRef(et, bv.Ref, c.BVBin("bvadd", bv.Off, it)), Elem: et}, types.NewPointer(et))
+			return e.objVal(PtrV{Kind: PObj, Ref: e.fx.elemRef(et, bv.Ref, c.BVBin("bvadd", bv.Off, it)), Elem: et})
 		}
 		return e.goVal(e.fx.loadElem(e.st, et, bv.Ref, c.BVBin("bvadd", bv.Off, it)), et)
 	case StrV:
@@ -952,6 +980,33 @@ func (e *CEnv) call(x *CExpr) CVal {
 	case "bytesEq":
 		a, b := e.Eval(x.Args[0]), e.Eval(x.Args[1])
 		return CVal{V: e.fx.bytesEq(e.st, a, b), T: types.Typ[types.Bool]}
+	case "has":
+		// has(m, k): key k is present in Go map m
+		m := e.Eval(x.Args[0])
+		mt, ok := mapTypeOf(m.T)
+		mterm, ok2 := m.V.(*Term)
+		if !ok || !ok2 || !e.fx.mapModelled(mt) {
+			e.fail("has(): modelled Go map expected")
+		}
+		kv := e.typedKey(e.Eval(x.Args[1]), mt.Key())
+		k := e.fx.mapKeyTerm(e.st, mt.Key(), kv.V)
+		present, _ := e.fx.mapRead(e.st, mt, mterm, k)
+		return CVal{V: present, T: types.Typ[types.Bool]}
+	case "ref":
+		v := e.Eval(x.Args[0])
+		switch r := v.V.(type) {
+		case SliceV:
+			return CVal{V: r.Ref, G: &CType{Kind: "name", Name: "Ref"}}
+		case IfaceV:
+			return CVal{V: r.Ref, G: &CType{Kind: "name", Name: "Ref"}}
+		case PtrV:
+			return CVal{V: e.fx.ptrRef(r), G: &CType{Kind: "name", Name: "Ref"}}
+		case *Term:
+			if r.Sort == RefSort {
+				return CVal{V: r, G: &CType{Kind: "name", Name: "Ref"}}
+			}
+		}
+		e.fail("ref() of %T", v.V)
 	case "arr", "off":
 		// arr(s), off(s): the byte array and start offset behind a string / []byte / byte-array object
 		v := e.Eval(x.Args[0])
@@ -981,6 +1036,17 @@ func (e *CEnv) call(x *CExpr) CVal {
 			h = c.False()
 		}
 		return CVal{V: h, T: types.Typ[types.Bool]}
+	}
+	// macro: untyped abbreviation expanded at the use site
+	if mc, ok := e.fx.eng.db.Macros[x.Name]; ok {
+		if len(x.Args) != len(mc.Params) {
+			e.fail("macro %s: %d arguments expected", x.Name, len(mc.Params))
+		}
+		n := e.child()
+		for i, p := range mc.Params {
+			n.bound[p] = e.Eval(x.Args[i])
+		}
+		return n.Eval(mc.Body)
 	}
 	// spec function
 	if sf, ok := e.fx.eng.db.Specs[x.Name]; ok {
@@ -1124,7 +1190,7 @@ func (fx *FnExec) bytesEq(st *State, a, b CVal) *Term {
 		}
 		return c.And(parts...)
 	}
-	k := c.BoundVar("k", BV(64))
+	k := c.BoundVarNamed(fmt.Sprintf("k@beq.%d.%d.%d.%d", aa.ID, ao.ID, ba.ID, bo.ID), BV(64))
 	return c.And(c.Eq(al, bl), c.Forall([]*Term{k}, c.Implies(c.BVCmp("bvult", k, al), c.Eq(c.Select(aa, c.BVBin("bvadd", ao, k)), c.Select(ba, c.BVBin("bvadd", bo, k))))))
 }
 
@@ -1178,4 +1244,31 @@ func (e *CEnv) asTerm(v CVal) *Term {
 	}
 	e.fail("scalar value expected, got %T", v.V)
 	return nil
+}
+
+func mapTypeOf(t types.Type) (*types.Map, bool) {
+	if t == nil {
+		return nil, false
+	}
+	mt, ok := under(t).(*types.Map)
+	return mt, ok
+}
+
+// typedKey gives untyped literals the key type.
+func (e *CEnv) typedKey(v CVal, kt types.Type) CVal {
+	if v.Untyped && v.Lit != nil {
+		if w, s, ok := intWidth(kt); ok {
+			return CVal{V: e.fx.c.BVConst(v.Lit, w), T: kt, Signed: s}
+		}
+	}
+	return v
+}
+
+// loadObjVal turns a pointer standing for an object value into that value.
+func (e *CEnv) loadObjVal(v CVal) CVal {
+	if !v.ObjVal {
+		return v
+	}
+	p := v.V.(PtrV)
+	return CVal{V: e.fx.loadObj(e.st, p.Elem, p.Ref), T: p.Elem}
 }
